@@ -281,7 +281,8 @@ def mono_kinds(m):
     for term, c in m.items():
         tk = term_kind(term)
         if tk and c > 0:
-            out.append(tk)
+            # an integer coefficient stands for that many simultaneous temporaries of the kind (2 * n * bytes_of(ct))
+            out.extend([tk] * (int(c) if isinstance(c, int) and 1 <= c <= 8 else 1))
     return sorted(out, key=repr)
 
 
